@@ -50,54 +50,90 @@ def case_strategy(draw):
     if draw(st.integers(0, 3)) == 0:
         case["msgs"] = draw(st.lists(S.user_messages(), min_size=0, max_size=3))
     case["pacing"] = draw(S.pacing_scripts())
+    if draw(st.integers(0, 3)) == 0:
+        # the same handler objects first carry one or two other fault-free transfers (every put request is a subject
+        # of C02, also the second and third on a handler); sizes biased to the special cases empty / metadata-only
+        prev = []
+        for _ in range(draw(st.integers(1, 2))):
+            f = draw(st.one_of(st.none(), st.just({"pat": b"x", "size": 0}), S.file_specs(cfg, max_bytes=600, allow_none=True)))
+            t = {"file": f, "req_mode": draw(st.sampled_from([None, "ACK", "NAK"])), "req_closure": draw(st.sampled_from([None, True, False]))}
+            prev.append(t)
+        case["before"] = prev
     return case
+
+
+def _check(s, case, cfg, outcome, pos):
+    content = s.content
+    vs = []
+    tag = f"{sim.eff_mode(cfg)}/{'closure' if sim.eff_closure(cfg) else 'noclosure'}/{'mdonly' if content is None else 'file'}{pos}"
+    excs = s.excs()
+    if s.put_exc is not None or s.put_result is not True:
+        vs.append(verdict("put-accepted", f"C02/put-request/{type(s.put_exc).__name__ if s.put_exc else s.put_result}{pos}", f"{s.put_exc!r}"))
+    elif excs:
+        e = excs[0]
+        vs.append(verdict("no-api-call-raises", f"C02/exception/{e[1]}/{e[3]}/{tag}", f"call {e[2]}: {e[5]}"))
+    elif outcome != "done":
+        vs.append(verdict("runs-to-completion", f"C02/not-completed/{outcome}/{tag}", f"src step {s.src.h.step} dst step {s.dst.h.step}"))
+    else:
+        if content is not None:
+            got = s.dest_bytes()
+            if got != content:
+                vs.append(verdict("file-identical", f"C02/file-differs/{tag}", f"want {len(content)} bytes got {None if got is None else len(got)}"))
+        for side in ("src", "dst"):
+            fins = s.finished_inds(side)
+            if len(fins) != 1:
+                vs.append(verdict("one-finished-indication", f"C02/finished-count/{side}/{len(fins)}/{tag}", str(fins)[:300]))
+                continue
+            f = fins[0]
+            if f["cond"] != 0 or f["delivery"] != 0:
+                vs.append(verdict("successful-finished", f"C02/finished-not-success/{side}/{tag}", str(f)))
+            if side == "dst" and content is not None and f["status"] != 2:
+                vs.append(verdict("successful-finished", f"C02/file-status/{side}/{tag}", str(f)))
+        fl = s.faults()
+        if fl:
+            vs.append(verdict("no-fault-callback", f"C02/fault-callback/{fl[0][1]}/{fl[0][2]}/{fl[0][4]}/{tag}", str(fl[:3])))
+        if s.src.h.num_packets_ready or s.dst.h.num_packets_ready:
+            vs.append(verdict("queues-empty", f"C02/packets-left/{tag}", ""))
+    return vs
 
 
 def evaluate(case):
     cfg = sim.norm_cfg(case["cfg"])
-    s = sim.Sim(case)
+    sess = None
+    vs = []
+    nbefore = 0
+    if case.get("before"):
+        sim.install_clock()
+        sim.CLOCK.reset()
+        sess = sim.Session(cfg, "t")
+        for t in case["before"]:
+            c = dict(cfg)
+            c["req_mode"], c["req_closure"] = t.get("req_mode"), t.get("req_closure")
+            ps = sim.Sim({"cfg": c, "file": t["file"]}, session=sess, fresh_clock=False)
+            o = ps.run(max_steps=6000, max_ticks=12)
+            nbefore += 1
+            vs = _check(ps, t, sim.norm_cfg(c), o, "/earlier-transfer-on-same-handlers")
+            if vs:
+                break
+    s = sim.Sim(case, session=sess, fresh_clock=sess is None)
     try:
+        if vs:
+            return Result(vs, True, ["earlier-transfer-failed"], sim.summarize(s))
         outcome = s.run(max_steps=6000, max_ticks=12)
         content = s.content
-        vs = []
-        tag = f"{sim.eff_mode(cfg)}/{'closure' if sim.eff_closure(cfg) else 'noclosure'}/{'mdonly' if content is None else 'file'}"
-        excs = s.excs()
-        if s.put_exc is not None or s.put_result is not True:
-            vs.append(verdict("put-accepted", f"C02/put-request/{type(s.put_exc).__name__ if s.put_exc else s.put_result}", f"{s.put_exc!r}"))
-        elif excs:
-            e = excs[0]
-            vs.append(verdict("no-api-call-raises", f"C02/exception/{e[1]}/{e[3]}/{tag}", f"call {e[2]}: {e[5]}"))
-        elif outcome != "done":
-            vs.append(verdict("runs-to-completion", f"C02/not-completed/{outcome}/{tag}", f"src step {s.src.h.step} dst step {s.dst.h.step}"))
-        else:
-            if content is not None:
-                got = s.dest_bytes()
-                if got != content:
-                    vs.append(verdict("file-identical", f"C02/file-differs/{tag}", f"want {len(content)} bytes got {None if got is None else len(got)}"))
-            for side in ("src", "dst"):
-                fins = s.finished_inds(side)
-                if len(fins) != 1:
-                    vs.append(verdict("one-finished-indication", f"C02/finished-count/{side}/{len(fins)}/{tag}", str(fins)[:300]))
-                    continue
-                f = fins[0]
-                if f["cond"] != 0 or f["delivery"] != 0:
-                    vs.append(verdict("successful-finished", f"C02/finished-not-success/{side}/{tag}", str(f)))
-                if side == "dst" and content is not None and f["status"] != 2:
-                    vs.append(verdict("successful-finished", f"C02/file-status/{side}/{tag}", str(f)))
-            fl = s.faults()
-            if fl:
-                vs.append(verdict("no-fault-callback", f"C02/fault-callback/{fl[0][1]}/{fl[0][2]}/{fl[0][4]}/{tag}", str(fl[:3])))
-            if s.src.h.num_packets_ready or s.dst.h.num_packets_ready:
-                vs.append(verdict("queues-empty", f"C02/packets-left/{tag}", ""))
+        vs = _check(s, case, cfg, outcome, "/after-earlier-transfers" if nbefore else "")
         seg = S.eff_seg_len(cfg)
         size = None if content is None else len(content)
         key = (
             sim.eff_mode(cfg), sim.eff_closure(cfg), cfg["crc_type"], cfg["pdu_crc"], cfg["src_id"][0], cfg["dst_id"][0],
             cfg["seq_width"], "none" if cfg["max_seg"] is None else ("1-3" if cfg["max_seg"] <= 3 else "n"),
             S.size_class(size, seg), case.get("dest_kind"), cfg["transport"], S.pacing_class(case.get("pacing")), cfg["immediate_nak"],
+            str(case.get("before")),
         )
         classes = [f"mode:{key[0]}", f"closure:{key[1]}", f"csum:{key[2]}", f"size:{key[8]}", f"pacing:{key[11]}", f"transport:{key[10]}", f"dest:{key[9]}",
                    f"idw:{key[4]}/{key[5]}", f"seqw:{key[6]}", f"pdu_crc:{key[3]}"]
+        if nbefore:
+            classes.append("after-earlier-transfers")
         if s.ticks:
             classes.append("needed-timer-expiry")
         if s.used_tracker_workaround:
@@ -105,6 +141,8 @@ def evaluate(case):
         return Result(vs, True, classes, sim.summarize(s), nt_key=key)
     finally:
         s.close()
+        if sess is not None:
+            sess.close()
 
 
 def replay(case):
